@@ -93,7 +93,7 @@ theorem exchange_hard_caps (cfg : Cfg) (w : World) (cur : Cursor) (req : Req)
   unfold exchangeCharged
   simp only [] at hok ⊢
   generalize req.env.ticks.headD {} = te at hok ⊢
-  rcases hr : runActs req.vals (Coll.new false) ((tickAt cur.st).getD defaultExchangeTick) with ⟨c, e⟩
+  rcases hr : runActs req.vals (Coll.new false) (turnTick cur req) with ⟨c, e⟩
   rw [hr] at hok
   cases e with
   | some err => simp [errResp] at hok
@@ -457,7 +457,7 @@ theorem exchange_request_within_caps (cfg : Cfg) (w : World) (req : Req)
     (cfg.maxResp > 0 → req.env.wire ≤ cfg.maxResp) ∧
     ∃ tv cur, getFirst keyState req.md = some tv ∧ openCursor w tv = some cur ∧
       (cfg.maxExt > 0 → exchangeCharged cfg cur req ≤ cfg.maxExt) := by
-  rcases handleExchange_cases cfg w req with ⟨e, h⟩ | ⟨tv, cur, w1, htv, hcur, _, _, _, h⟩
+  rcases handleExchange_cases cfg w req with ⟨e, w0, h, _, _⟩ | ⟨tv, cur, w1, htv, hcur, _, _, _, _, h⟩
   · rw [h] at hst; simp [errResp] at hst
   · rcases h with ⟨hc, _⟩ | ⟨_, hr, _⟩ | ⟨_, _, _, h⟩
     · rw [hnc] at hc; cases hc
